@@ -294,10 +294,20 @@ Section Model.
     | _ => None
     end.
 
-  (* computeResharingResult.  The node lists are kept sorted by index by the
-     harness (assumption of the correspondence), so "the first oldT shares in
-     index order" are the first oldT qualified dealers in list order. *)
+  (* computeResharingResult.  share.RecoverPriPoly (xyScalar) and
+     share.RecoverCommit (xyCommit) sort what they are given by index and keep
+     the first oldT entries: the dealers used are the oldT qualified dealers
+     with the LOWEST indices, whatever the order of Config.OldNodes - the same
+     subset for the private share and for every public coefficient. *)
   Definition nth_coeff (i : nat) (p : list F) : F := nth i p zzero.
+
+  Fixpoint insert_by_index {A} (e : Z * A) (l : list (Z * A)) : list (Z * A) :=
+    match l with
+    | [] => [e]
+    | x :: r => if fst e <? fst x then e :: l else x :: insert_by_index e r
+    end.
+  (* stable insertion sort by index *)
+  Definition sort_by_index {A} (l : list (Z * A)) : list (Z * A) := fold_right insert_by_index [] l.
 
   Definition compute_reshare_result (c : cfg) (s : st) : option result :=
     let good := filter (fun e => all_true (d_row (snd e))) (s_d s) in
@@ -307,7 +317,7 @@ Section Model.
       let t := Z.to_nat (c_oldT c) in
       if Nat.ltb (length good) t then None
       else
-        let used := firstn t good in
+        let used := firstn t (sort_by_index good) in
         let shares := map (fun e => (fst e, match d_share (snd e) with Some v => v | None => zzero end)) used in
         let sh := lagrange0 shares in
         let coeffs := map (fun i => lagrange0 (map (fun e => (fst e, nth_coeff i (match d_pub (snd e) with Some p => p | None => [] end))) used))
